@@ -1727,6 +1727,19 @@ func genScenario(rng *lib.Rng) *scenario {
 				cands = append(cands, d)
 			}
 		}
+		// prefer a type of which a value is stored
+		var stored []*gDecl
+		for _, d := range cands {
+			for _, rt := range s.Roots {
+				if valMentions(rt.Val, d.Name) {
+					stored = append(stored, d)
+					break
+				}
+			}
+		}
+		if len(stored) > 0 && rng.Chance(4, 5) {
+			cands = stored
+		}
 		orig := lib.Pick(rng, cands)
 		if rng.Chance(1, 4) {
 			randomStep() // something unrelated first
